@@ -113,10 +113,14 @@ def h1_session(requests: List[Dict[str, Any]]) -> Dict[str, Any]:
                     pos += size
                     add_raw("\r\n")
                     off += size
-                if sent >= total and not body.get("no_last_chunk"):
+                if body.get("bad_chunk"):
+                    # a chunk-size line that is not hexadecimal: the message is malformed from here on
+                    bad_at = pos
+                    add_raw("ZZ\r\n")
+                elif sent >= total and not body.get("no_last_chunk"):
                     add_raw("0\r\n\r\n")
             bodies[rid] = [pid, sent]
-            complete = sent >= total and not body.get("no_last_chunk")
+            complete = sent >= total and not body.get("no_last_chunk") and not body.get("bad_chunk")
         else:
             bodies[rid] = [pid, 0]
             complete = True
@@ -135,6 +139,7 @@ def h1_session(requests: List[Dict[str, Any]]) -> Dict[str, Any]:
                 "stream": 0,
                 "te": False,
                 "hs": rq.get("hs", HS_NONE),
+                "badbody": bool(body is not None and body.get("bad_chunk")),
             }
         )
         reqs.append(
@@ -149,12 +154,15 @@ def h1_session(requests: List[Dict[str, Any]]) -> Dict[str, Any]:
                 "version": rq.get("version", "1.1"),
                 "wantclose": bool(rq.get("wantclose", False)),
                 "bad": bool(rq.get("bad", False)),
+                "bad_at": bad_at if (body is not None and body.get("bad_chunk")) else -1,
             }
         )
     cerr_at = 1 << 30
     for r, c in zip(reqs, creqs):
         if c["bad"]:
             cerr_at = min(cerr_at, r["start"])
+        elif r["bad_at"] >= 0:
+            cerr_at = min(cerr_at, r["bad_at"])
         elif c["wantclose"] or c["ver"] == "1.0":
             cerr_at = min(cerr_at, r["end"])
     ws = {str(rq["rid"]): {"key": rq["wskey"]} for rq in requests if "wskey" in rq}
